@@ -99,7 +99,7 @@ func distGen(r *rand.Rand, n int, tier string, emit func(Case)) {
 		emit(c)
 	}
 	for i := 0; i < bigExtra(n); i++ { // large sizes
-		l := bigLatticeTo(r, 12, 16)
+		l := bigLatticeTo(r, 8, 8) // the distance comparison's arithmetic allows no wider lattice (DESIGN 4.4)
 		a, b := l.bigPair()
 		c := pairCase(l, a, b, []int{0, 0, 0, 1, 2, 3}[r.Intn(6)])
 		c["kind"] = "pair"
